@@ -266,6 +266,19 @@ class Gen:
                               ("neg", ("num", r.choice(["1", "2", "0.5", "16", "17"]))),
                               ("bin", r.choice(["+", "-", "*", "/"]), ("num", r.choice(["1", "2", "3", "0.5"])), ("num", r.choice(["1", "2", "4"]))),
                               self.tree(d - 1, False)])
+                if r.random() < 0.25:
+                    # exponent with constant leaves whose value depends on variables: a parenthesised
+                    # conditional / a function of a variable (isConstant must look at every part of a node)
+                    v = ("var", r.choice(VARS[:4]))
+                    n1, n2 = ("num", r.choice(["2", "3", "1", "0.5"])), ("num", r.choice(["3", "2", "4", "1.5"]))
+                    cmp = ("cmp", r.choice(CMPS), v, ("num", r.choice(["0", "1", "0.5"])))
+                    choices = [("cond", cmp, n1, n2), ("cond", ("and", cmp, ("cmp", "<", ("var", r.choice(VARS[:4])), ("num", "2"))), n1, n2),
+                               ("cond", ("not", cmp), n1, n2), ("cond", cmp, v, n2), ("cond", cmp, n1, ("neg", n2))]
+                    if "H" in self.unary:
+                        choices.append(("bin", "+", ("fn1", "H", v), n1))
+                    if "max" in self.binary:
+                        choices += [("fn2", "max", v, n1), ("fn2", "min", n2, v)]
+                    e = r.choice(choices)
                 return ("bin", op, self.tree(d - 1, False), e)
             return ("bin", op, self.tree(d - 1, False), self.tree(d - 1, False))
         if k < 0.65:
